@@ -219,6 +219,11 @@ def run_case(ctx, case):
                 if not refmodel.is_missing_like(got, real):
                     bad.append("un-requested slot %s holds %r (real results look like %r)" % (
                         p, refmodel._short(got), refmodel._short(real)))
+                elif isinstance(real, (bool, str)) and got is not None:
+                    # an output that is itself a bool / str: the statement names None as its placeholder (a NaN there
+                    # turns into the non-missing text 'nan' as soon as the values are put into an array of strings)
+                    bad.append("un-requested slot %s of a %s output holds %r, the placeholder for bool/str is None" % (
+                        p, type(real).__name__, refmodel._short(got)))
             return None
 
         # shape of the nest itself
